@@ -36,6 +36,10 @@ def known_key(case):
         z = case.get("input", {}).get("z", [])
         if z and max(abs(v) for v in z) >= 2.0 ** 52:
             return "F13-shift-to-cone-interior-soc-absorption-beyond-2^52"
+    if case.get("op") == "shift_huge_psd":
+        m = case.get("input", {}).get("M", [])
+        if m and max(abs(v) for row in m for v in row) >= 2.0 ** 52:
+            return "F13-shift-to-cone-interior-soc-absorption-beyond-2^52"
     return None
 
 
